@@ -60,6 +60,8 @@ pub async fn handle_watch_command<TCompilationProfile: CompilationProfile>(
                 let result = WithDuration::new(|| compile::<TCompilationProfile>(&mut state));
                 let _ = print_result(&state.db, result);
                 state.run_garbage_collection();
+                #[cfg(isographlabs_isograph_verif)]
+                crate::verif_hooks::after_watch_iteration(&mut state);
             }
             Err(errors) => {
                 return errors
@@ -252,6 +254,17 @@ pub fn create_debounced_file_watcher(
     Receiver<Result<Vec<(SourceEventKind, ChangedFileKind)>, Vec<Error>>>,
     Debouncer<RecommendedWatcher, RecommendedCache>,
 ) {
+    #[cfg(isographlabs_isograph_verif)]
+    if let Some(receiver) = crate::verif_hooks::take_injected_watch_receiver() {
+        // The simulator owns the event source; this debouncer watches nothing.
+        let idle_debouncer = new_debouncer(
+            Duration::from_millis(100),
+            None,
+            |_result: DebounceEventResult| {},
+        )
+        .expect("Expected to be able to create debouncer");
+        return (receiver, idle_debouncer);
+    }
     let (sender, receiver) = tokio::sync::mpsc::channel(1);
     let current_runtime = Handle::current();
     let config_for_watcher = config.clone();
@@ -311,3 +324,11 @@ pub enum ChangedFileKind {
 }
 
 pub type SourceFileEvent = (SourceEventKind, ChangedFileKind);
+
+#[cfg(isographlabs_isograph_verif)]
+pub(crate) fn verif_categorize_and_filter_events(
+    events: &[DebouncedEvent],
+    config: &CompilerConfig,
+) -> Option<Vec<SourceFileEvent>> {
+    categorize_and_filter_events(events, config)
+}
